@@ -278,10 +278,9 @@ impl Kademlia {
                                 "connection established to peer but failed to open substream",
                             );
 
-                            if let PeerAction::SendFindNode(query_id) = action {
-                                self.engine.register_send_failure(query_id, peer);
-                                self.engine.register_response_failure(query_id, peer);
-                            }
+                            let query_id = action.query_id();
+                            self.engine.register_send_failure(query_id, peer);
+                            self.engine.register_response_failure(query_id, peer);
                         }
                     }
                 }
